@@ -67,4 +67,4 @@ Definition model_agrees (c : case) : bool :=
 
 Definition mismatches (cs : list case) : list N := idx_filter (fun c => negb (model_agrees c)) 0%N cs.
 Definition violations (cs : list case) : list N :=
-  idx_filter (fun c => negb (C19_check nat Nat.eqb (k_cfg c) (k_recv c) (k_obs c))) 0%N cs.
+  idx_filter (fun c => negb (C19_check nat Nat.eqb (k_cfg c) (k_bad c) (k_recv c) (k_obs c))) 0%N cs.
